@@ -24,6 +24,8 @@ def run_scenario(binary, hooks, scen):
                 w.act(a[1], a[2])
             elif a[0] == "end":
                 w.end_client(a[1], a[2])
+            elif a[0] == "end_many":
+                w.end_many(a[1], a[2])
         return [dict(rule=v.rule, props=list(v.props), signature=v.signature, detail=v.detail)
                 for v in w.violations], None
     except W.Inconclusive as ex:
